@@ -103,6 +103,7 @@ def plan(prop, tier, seed):
         add(['chain3ev', 'tbchain3', 'fanin', 'weak3', 'chain3', 'shortcut3'] if q else three, K=2, lazies=(True, False) if not q else (True,))
         add(['tb2', 'tbloop', 'hyb2', 'tb_ev'], K=2 if q else 3, until='symnc', caches=(False,), lazies=(True, False))
         add(['sibloop', 'sibloop_ev'], K=3, until=2, lazies=(True, False), masks='all', extra={'no_self': ['A', 'B']})
+        add(['async2s', 'async2w'], K=2 if q else 3, lazies=(True, False))
         if not q:
             add(['tb2', 'hyb2', 'weak2', 'tb_ev', 'evloop'], K=2, D=1, lazies=(True, False))
     elif prop == 'C02':
